@@ -720,6 +720,202 @@ func runC16Replay(r *simkit.Run) {
 }
 
 // dataEOFReader reads b in chunks and returns the last chunk together with io.EOF (the io.Reader contract allows it).
+// xorReader: the "proprietary" coding of the custom decoder: every byte XOR 0x5a.
+type xorReader struct{ rc io.ReadCloser }
+
+func (x xorReader) Read(p []byte) (int, error) {
+	n, err := x.rc.Read(p)
+	for i := 0; i < n; i++ {
+		p[i] ^= 0x5a
+	}
+	return n, err
+}
+func (x xorReader) Close() error { return x.rc.Close() }
+
+// runC16TwoServers: two servers built in one process from equal compression_algorithms lists. Server A registers a
+// custom decoder through WithDecoder - under a new name, or under the name of a built-in coding; server B registers
+// nothing. What A was given is A's business: A decodes the custom coding; B refuses a name it never enabled before its
+// handler runs, and decodes the built-in coding of that name as every other server does.
+func runC16TwoServers(r *simkit.Run) {
+	tp := r.Tape
+	name := []string{"x-sim-proprietary", "snappy", "gzip", "zstd"}[tp.Weighted(3, 1, 1, 1)]
+	builtin := name != "x-sim-proprietary"
+	bFirst := tp.Chance(1, 4)
+	custom := tp.Chance(1, 2)
+	var list []string
+	if custom {
+		list = []string{"", "gzip", "snappy", "zstd"}
+		if tp.Chance(1, 2) {
+			list = append(list, "lz4")
+		}
+	}
+	body := makeBody(tp, []string{"text", "random"}[tp.Draw(2)], tp.Range(1, 5000))
+	r.Sample = map[string]any{"mode": "two-servers", "custom_decoder_name": name, "plain_server_built_first": bFirst, "custom_algorithm_list": list, "body_len": len(body)}
+	r.Logf("two servers name=%q bFirst=%v list=%v body=%d", name, bFirst, list, len(body))
+	r.Count("probe.two_servers_one_with_a_custom_decoder")
+	type seen struct {
+		got []byte
+		err error
+		ran bool
+	}
+	var mu sync.Mutex
+	sa, sb := &seen{}, &seen{}
+	mkHandler := func(sn *seen) http.Handler {
+		return http.HandlerFunc(func(w http.ResponseWriter, req *http.Request) {
+			b, err := io.ReadAll(req.Body)
+			mu.Lock()
+			sn.got, sn.err, sn.ran = b, err, true
+			mu.Unlock()
+			if err != nil {
+				http.Error(w, err.Error(), http.StatusBadRequest)
+				return
+			}
+			w.WriteHeader(http.StatusOK)
+		})
+	}
+	type server struct {
+		srv  *http.Server
+		addr string
+		done chan struct{}
+	}
+	build := func(h http.Handler, opts ...confighttp.ToServerOption) *server {
+		sc := confighttp.NewDefaultServerConfig()
+		port, _ := nextPortPair()
+		for i := 0; i < 200 && !portsFree(port); i++ {
+			port, _ = nextPortPair()
+		}
+		sc.Endpoint = fmt.Sprintf("127.0.0.1:%d", port)
+		sc.TLSSetting = nil
+		if list != nil {
+			sc.CompressionAlgorithms = append([]string(nil), list...) // equal lists, not the same slice
+		}
+		srv, err := sc.ToServer(context.Background(), componenttest.NewNopHost(), componenttest.NewNopTelemetrySettings(), h, opts...)
+		if err != nil {
+			panic(err)
+		}
+		srv.SetKeepAlivesEnabled(false)
+		ln, err := sc.ToListener(context.Background())
+		if err != nil {
+			return nil
+		}
+		x := &server{srv: srv, addr: ln.Addr().String(), done: make(chan struct{})}
+		go func() { _ = srv.Serve(ln); close(x.done) }()
+		return x
+	}
+	dec := confighttp.WithDecoder(name, func(rc io.ReadCloser) (io.ReadCloser, error) { return xorReader{rc}, nil })
+	var a, b *server
+	if bFirst {
+		b = build(mkHandler(sb))
+		a = build(mkHandler(sa), dec)
+	} else {
+		a = build(mkHandler(sa), dec)
+		b = build(mkHandler(sb))
+	}
+	defer func() {
+		for _, x := range []*server{a, b} {
+			if x != nil {
+				_ = x.srv.Close()
+				<-x.done
+			}
+		}
+	}()
+	if a == nil || b == nil {
+		r.Count("probe.infra_socket_unavailable")
+		time.Sleep(200 * time.Millisecond)
+		return
+	}
+	xored := make([]byte, len(body))
+	for i := range body {
+		xored[i] = body[i] ^ 0x5a
+	}
+	raw := func(addr string, wire []byte) (int, error) {
+		req, err := http.NewRequest(http.MethodPost, "http://"+addr+"/", bytes.NewReader(wire))
+		if err != nil {
+			panic(err)
+		}
+		req.Header.Set("Content-Encoding", name)
+		req.Close = true
+		cl := &http.Client{Timeout: 10 * time.Second}
+		resp, err := cl.Do(req)
+		if err != nil {
+			return 0, err
+		}
+		_, _ = io.Copy(io.Discard, resp.Body)
+		_ = resp.Body.Close()
+		return resp.StatusCode, nil
+	}
+	infra := func(err error) bool {
+		return err != nil && (strings.Contains(err.Error(), "cannot assign requested address") || strings.Contains(err.Error(), "address already in use"))
+	}
+	// 1. A decodes what it was told to decode
+	stA, errA := raw(a.addr, xored)
+	simkit.Beat()
+	if infra(errA) {
+		r.Count("probe.infra_socket_unavailable")
+		return
+	}
+	mu.Lock()
+	gotA := *sa
+	mu.Unlock()
+	if errA != nil || stA != http.StatusOK || !gotA.ran || gotA.err != nil || !bytes.Equal(gotA.got, body) {
+		r.Failf("content", "custom-decoder/own-server", "the server that registered a decoder for %q: status %d err %v, handler ran=%v read %d bytes (err=%v), the body was %d bytes", name, stA, errA, gotA.ran, len(gotA.got), gotA.err, len(body))
+	}
+	// 2. B never enabled the custom coding
+	if !builtin {
+		stB, errB := raw(b.addr, xored)
+		simkit.Beat()
+		if infra(errB) {
+			r.Count("probe.infra_socket_unavailable")
+			return
+		}
+		mu.Lock()
+		ranB := sb.ran
+		mu.Unlock()
+		if ranB {
+			r.Failf("reject", "handler-ran-for-another-servers-decoder", "server B never enabled %q (another server of the process registered it through WithDecoder); its handler ran all the same (status %d)", name, stB)
+		} else if errB == nil && (stB < 400 || stB >= 500) {
+			r.Failf("reject", "status-for-another-servers-decoder", "server B never enabled %q; it answered %d, not a client error", name, stB)
+		}
+	} else {
+		// B decodes the built-in coding of that name: a compressing client sends the body
+		cc := confighttp.NewDefaultClientConfig()
+		cc.Endpoint = "http://" + b.addr
+		cc.Compression = configcompression.Type(name)
+		cc.Timeout = 10 * time.Second
+		client, err := cc.ToClient(context.Background(), componenttest.NewNopHost(), componenttest.NewNopTelemetrySettings())
+		if err != nil {
+			panic(err)
+		}
+		defer client.CloseIdleConnections()
+		req, err := http.NewRequest(http.MethodPost, cc.Endpoint+"/", bytes.NewReader(body))
+		if err != nil {
+			panic(err)
+		}
+		req.Close = true
+		resp, errB := client.Do(req)
+		simkit.Beat()
+		if infra(errB) {
+			r.Count("probe.infra_socket_unavailable")
+			return
+		}
+		stB := 0
+		if errB == nil {
+			stB = resp.StatusCode
+			_, _ = io.Copy(io.Discard, resp.Body)
+			_ = resp.Body.Close()
+		}
+		mu.Lock()
+		gotB := *sb
+		mu.Unlock()
+		if errB != nil || stB != http.StatusOK || !gotB.ran || gotB.err != nil || !bytes.Equal(gotB.got, body) {
+			r.Failf("content", "round-trip-next-to-a-server-that-overrides/"+name, "server B (no custom decoder; another server of the process overrides %q) and a client compressing with %s: status %d err %v, handler ran=%v read %d bytes (err=%v), the client was given %d bytes", name, name, stB, errB, gotB.ran, len(gotB.got), gotB.err, len(body))
+		}
+	}
+	r.Events += 2
+	r.Nontrivial = true
+	r.State(fmt.Sprintf("two-servers name=%s bFirst=%v custom=%v", name, bFirst, custom), "request")
+}
+
 type dataEOFReader struct {
 	b     []byte
 	chunk int
@@ -766,6 +962,10 @@ func runC16(r *simkit.Run) {
 	}
 	if tp.Chance(1, 12) {
 		runC16PreEncoded(r)
+		return
+	}
+	if tp.Chance(1, 14) {
+		runC16TwoServers(r)
 		return
 	}
 	cfg := c16Cfg{}
@@ -1094,5 +1294,5 @@ var HarnessC16 = simkit.Harness{
 	Prop: "C16", Name: "svc/c16", Run: runC16, NoBubble: true, StepTimeout: 60e9, RateLimit: 40,
 	Real: []string{"confighttp.ClientConfig.ToClient (compression round-tripper, every algorithm and level)", "confighttp.ServerConfig.ToServer (decompressor, max-body interceptors, enabled-decoder list)", "net/http client and server over kernel loopback TCP"},
 	Stub: []string{"listener wrapper owned by the simulator: the server's reads are cut into tape-drawn chunk sizes (1 B .. 64 KiB) and optionally fail after N bytes (never a sleep)", "innermost handler reading with a tape-drawn buffer size"},
-	Rule: "one run = (1 run in 6) overlap mode: 0-4 earlier requests, then three requests whose handlers are held in the middle of their bodies until all got there, through one server and one client, handler optionally closing the body itself, every handler must read its own bytes; in half of these runs one more request of 6 or 12 MB is answered by its (full-duplex) handler after the first kilobyte and read to the end only after all the others, while its client call has long returned; otherwise one request: tape-drawn algorithm (none, gzip, zlib, deflate, zstd, snappy, lz4) and level, enabled-decoder list (default or custom), max_request_body_size (default, 1, 100, 1000, 4096, 65536, 70000), body (zeros / text / incompressible; empty, tiny, limit-1, limit, limit+1, codec block sizes, bombs of 2-8x the limit), server read chunk size, optional truncation of the stream, handler buffer size; runs outside the synctest bubble on real loopback sockets (real time, no virtual clock: the property does not depend on timing; one request at a time); distinct = distinct event-log hash; non-trivial = a compressed or truncated request",
+	Rule: "one run = (1 run in 6) overlap mode: 0-4 earlier requests, then three requests whose handlers are held in the middle of their bodies until all got there, through one server and one client, handler optionally closing the body itself, every handler must read its own bytes; in half of these runs one more request of 6 or 12 MB is answered by its (full-duplex) handler after the first kilobyte and read to the end only after all the others, while its client call has long returned; or (1 in 14) two servers built from equal algorithm lists, one of which registers a custom decoder (a new name, or the name of a built-in coding) - the other must refuse the new name before its handler runs and decode the built-in coding as ever; otherwise one request: tape-drawn algorithm (none, gzip, zlib, deflate, zstd, snappy, lz4) and level, enabled-decoder list (default or custom), max_request_body_size (default, 1, 100, 1000, 4096, 65536, 70000), body (zeros / text / incompressible; empty, tiny, limit-1, limit, limit+1, codec block sizes, bombs of 2-8x the limit), server read chunk size, optional truncation of the stream, handler buffer size; runs outside the synctest bubble on real loopback sockets (real time, no virtual clock: the property does not depend on timing; one request at a time); distinct = distinct event-log hash; non-trivial = a compressed or truncated request",
 }
